@@ -8,6 +8,7 @@ from hypothesis import strategies as st
 from vlib import interp
 from vlib import pdfwrite as W
 from vlib.runner import Outcome, hyp_search
+from vlib.workmeter import METER, WorkBudgetExceeded
 
 ID = "C04"
 LEVEL = "exploration"
@@ -217,11 +218,18 @@ def run_case(case):
             nt = True
     classes = sorted(set(classes))
     desc = lambda: "tree=%r" % (case["tree"],)  # noqa: E731
-    try:
-        pages = list(PDFPage.get_pages(io.BytesIO(pdf)))
-        lts = interp.pages(pdf)
-    except Exception as e:
+    # "a tree whose Kids contain cycles or repeated nodes still terminates": event budget, no wall clock
+    nnodes = len(b.nodes)
+    budget = 5_000_000 + 400_000 * nnodes
+    r, e, _n = METER.run(lambda: (list(PDFPage.get_pages(io.BytesIO(pdf))), interp.pages(pdf)), budget)
+    if isinstance(e, WorkBudgetExceeded):
+        return Outcome(classes, nt, fail="page tree walk did not finish within %d interpreter events (%d nodes); %s" % (
+            budget, nnodes, desc()))
+    if e is not None:
+        if not isinstance(e, Exception):
+            raise e
         return Outcome(classes, nt, fail="raised %s: %s; %s" % (type(e).__name__, e, desc()))
+    pages, lts = r
     if [p.pageid for p in pages] != [b.nodes[path] for path, _, _ in exp]:
         return Outcome(classes, nt, fail="page order (object ids) %r expected %r; %s" % (
             [p.pageid for p in pages], [b.nodes[path] for path, _, _ in exp], desc()))
